@@ -14,7 +14,15 @@ every run: EXACTLY over Q on inputs built so that every square root is taken of 
 the generator accept/reject candidates), and over IEEE doubles (the same extracted functions instantiated with OCaml floats, 1e-9)
 on B B^T / random SPD inputs whose pivot order is separated from rounding noise.  potrf is compared through potrf_blocked2 (all four
 (triangle, storage) pairs blocked: left-looking leaf C02BlkModel.potrf_rec, right-looking leaf C02RlModel.potrf_rec_rl), the LU class
-with matrix right-hand sides through C02LUMatModel.lu_solve_m (two blocked trsm)."""
+with matrix right-hand sides through C02LUMatModel.lu_solve_m (two blocked trsm).
+Conjugate gradient (op J: conjugate_gradient(eps, maxit) with explicit arguments; vector solve left/right, matrix solve left/right): model
+C02CgModel.v over Q (exact rationals) compared at 1e-9 with the implementation ITERATE BY ITERATE (maxit = 1..n exposes x_1..x_n, then the
+run to convergence), exactly on runs whose step lengths are dyadic, and over doubles on random SPD systems; monitor: after a return
+through the stopping rule the true residual is below eps (+ rounding), right = transpose of left.
+Symmetric eigen-decomposition (op E): the WHOLE of kernels::syev is modelled as coded (C02SyevModel.v: Householder reduction, accumulation,
+implicit QL, eigensort, normalisation) and compared through the instantiation with doubles (Q and D at 1e-9) on symmetric matrices with
+well separated eigenvalues and on tridiagonal inputs; exactly on diagonal matrices; the intermediate tridiagonal matrix cannot be observed
+in the C++ (one function), the proved part (the reduction step) is tied as a part of the whole."""
 import os, sys, re, math
 from fractions import Fraction as Fr
 sys.path.insert(0, os.path.dirname(os.path.abspath(__file__)))
@@ -371,6 +379,26 @@ def gen_J_cases(rng, big):
             for k in (0, rng.randint(1, n)):
                 cases.append(("fmodel", J_line(ao, n, m, 1e-10, k, a, b)))
     return cases
+# ---------------------------------------------------------------- symmetric eigen-decomposition through the model of kernels::syev
+def gen_E_cases(rng, big):
+    """exact: diagonal matrices (no rotation, sorting and normalisation only), n = 1; double model: symmetric matrices with well
+    separated eigenvalues (distinct integers), so that the eigenvectors are well conditioned"""
+    cases = []
+    for ao in "rc":
+        cases.append(("exact", "E %s 1 | 5" % ao)); cases.append(("exact", "E %s 3 | 2 0 0 0 -1 0 0 0 7" % ao))
+        cases.append(("exact", "E %s 4 | 1 0 0 0 0 1 0 0 0 0 3 0 0 0 0 -2" % ao))
+        for n in [rng.randint(2, 10) for _ in range(4 if not big else 12)] + [rng.choice([13, 17])]:
+            ev = rng.sample(range(-3 * n, 3 * n + 1), n)
+            a = [[float(ev[i]) if i == j else 0.0 for j in range(n)] for i in range(n)]
+            for _ in range(3): a = householder(rng, n, a, True, True)
+            cases.append(("fmodel", "E %s %d | %s" % (ao, n, fl(symm(a)))))
+            # exactly tridiagonal input (scale of the rows above the sub-diagonal is 0 for i = 1 only) and a matrix with zero rows
+            t = [[0.0] * n for _ in range(n)]
+            for i in range(n):
+                t[i][i] = float(ev[i])
+                if i + 1 < n: t[i][i + 1] = t[i + 1][i] = rng.choice([1.0, -0.5, 0.25])
+            cases.append(("fmodel", "E %s %d | %s" % (ao, n, fl(t))))
+    return cases
 def gen_P_cases(rng, big):
     """streams aimed at the case splits of the pstrf proofs: rank 0, rank n, pivot ties, no swap needed / swap needed, zero trailing
     block, sizes crossing the panel width 20 (and 40)"""
@@ -647,6 +675,7 @@ def gen_cases(rng, tier):
     cases += gen_semi_cases(rng, big)
     cases += gen_U_cases(rng, big)
     cases += gen_J_cases(rng, big)
+    cases += gen_E_cases(rng, big)
     cases += gen_X_cases(rng, big)
     return cases
 def symm(a): return [[(a[i][j] + a[j][i]) / 2 for j in range(len(a))] for i in range(len(a))]
